@@ -161,6 +161,190 @@ func cellOfAddr(addr ssa.Value) ssa.Value {
 	return addr
 }
 
+type subsetRes struct {
+	ind         *induction
+	auth, isSet *ssa.Call
+	why         []string
+}
+
+// subsetLoopIn looks in fn for the per-bit subset loop on requester `own`: a counting loop whose exit edges are the
+// only way to the sink blocks, holding IsSet(i) and own.Authorize(i) on the same counter as branch conditions.
+// why lists what is wrong with a recognised loop (wrong range; an iteration with the bit requested and not held
+// can complete or reach a sink).
+func (P *Prog) subsetLoopIn(fn *ssa.Function, own ssa.Value, sinks []*ssa.BasicBlock, bits int64) (*subsetRes, []string) {
+	var problems []string
+	var res *subsetRes
+	for _, cj := range callsIn(fn) {
+		c, ok := cj.(*ssa.Call)
+		if !ok {
+			continue
+		}
+		recv, p, arg, ok := authorizeCall(c)
+		if !ok || p >= 0 || recv != own {
+			continue
+		}
+		ind, ok := inductionOf(arg)
+		if !ok {
+			problems = append(problems, "Authorize with a non-constant argument that is not a recognised loop counter at "+P.ipos(c))
+			continue
+		}
+		exitCut := map[Edge]bool{}
+		for _, e := range ind.exitEdges {
+			exitCut[e] = true
+		}
+		r := reachable(fn, exitCut)
+		escapes := false
+		for _, sb := range sinks {
+			if r[sb] {
+				escapes = true
+			}
+		}
+		if escapes {
+			continue
+		}
+		for _, ck := range callsIn(fn) {
+			c2, ok := ck.(*ssa.Call)
+			if ok && calleeName(&c2.Call) == "(*hotline.AccessBitmap).IsSet" && len(c2.Call.Args) == 2 && c2.Call.Args[1] == arg {
+				res = &subsetRes{ind: ind, auth: c, isSet: c2}
+			}
+		}
+	}
+	if res == nil {
+		return nil, problems
+	}
+	found := res.ind
+	if found.lo != 0 || found.hi != bits {
+		res.why = append(res.why, fmt.Sprintf("the loop covers bits %d..%d, not 0..%d", found.lo, found.hi-1, bits-1))
+	}
+	cut := map[Edge]bool{}
+	nIs, nAu := 0, 0
+	factEdges(fn, func(e Edge, f Fact) {
+		if f.V == ssa.Value(res.isSet) {
+			nIs++
+		}
+		if f.V == ssa.Value(res.auth) {
+			nAu++
+		}
+		if f.Kind != "truth" {
+			return
+		}
+		if f.V == ssa.Value(res.isSet) && !f.Holds {
+			cut[e] = true
+		}
+		if f.V == ssa.Value(res.auth) && f.Holds {
+			cut[e] = true
+		}
+	})
+	if nIs == 0 || nAu == 0 {
+		res.why = append(res.why, "IsSet/Authorize results are not used as branch conditions")
+	}
+	reach := reachableFrom(found.bodyStart, cut)
+	if reach[found.testBlock] {
+		res.why = append(res.why, "an iteration in which the requested bit is set and the requester lacks it can complete (reaches the loop test again)")
+	}
+	for _, sb := range sinks {
+		if reach[sb] {
+			res.why = append(res.why, "Create (or the helper's 'allowed' result) is reachable from inside such an iteration")
+			break
+		}
+	}
+	if !found.bodyStart.Dominates(res.isSet.Block()) || !found.bodyStart.Dominates(res.auth.Block()) {
+		res.why = append(res.why, "the IsSet/Authorize tests are not inside the loop body")
+	}
+	return res, problems
+}
+
+// subsetHelperIn recognises the loop extracted into a bool predicate: a call h(.., own, .., &bitmap, ..) in fn whose
+// callee holds the subset loop on the corresponding parameters, returns one constant (the verdict "exceeds") only
+// from inside a refusing iteration and the other constant only through the loop exit — and the sink in fn is
+// unreachable once the edges on which the call yields the "allowed" constant are cut.
+func (P *Prog) subsetHelperIn(fn *ssa.Function, own ssa.Value, sink *ssa.BasicBlock, bits int64) (*subsetRes, *ssa.Call, ssa.Value) {
+	for _, cj := range callsIn(fn) {
+		c, ok := cj.(*ssa.Call)
+		if !ok {
+			continue
+		}
+		h, ok := c.Call.Value.(*ssa.Function)
+		if !ok || h.Blocks == nil || !P.isRepoPkg(pkgOf(h)) || h.Signature.Results().Len() != 1 {
+			continue
+		}
+		if b, ok := h.Signature.Results().At(0).Type().Underlying().(*types.Basic); !ok || b.Kind() != types.Bool {
+			continue
+		}
+		k := -1
+		for i, a := range c.Call.Args {
+			if a == own && i < len(h.Params) {
+				k = i
+			}
+		}
+		if k < 0 {
+			continue
+		}
+		for _, badVal := range []bool{true, false} {
+			var sinks []*ssa.BasicBlock
+			allConst := true
+			for _, ret := range returnsOf(h) {
+				cst, ok := ret.Results[0].(*ssa.Const)
+				if !ok || cst.Value == nil {
+					allConst = false
+					break
+				}
+				if (cst.Value.String() == "true") != badVal {
+					sinks = append(sinks, ret.Block())
+				}
+			}
+			if !allConst || len(sinks) == 0 {
+				continue
+			}
+			res, _ := P.subsetLoopIn(h, h.Params[k], sinks, bits)
+			if res == nil {
+				continue
+			}
+			// the bitmap tested inside is one of the helper's parameters, only ever read through IsSet
+			j := -1
+			for i, prm := range h.Params {
+				if res.isSet.Call.Args[0] == ssa.Value(prm) {
+					j = i
+				}
+			}
+			if j < 0 || j >= len(c.Call.Args) {
+				res.why = append(res.why, "the bitmap tested in "+fname(h)+" is not one of its parameters")
+				return res, c, nil
+			}
+			for _, r := range *h.Params[j].Referrers() {
+				switch x := r.(type) {
+				case *ssa.DebugRef:
+				case *ssa.Call:
+					if calleeName(&x.Call) != "(*hotline.AccessBitmap).IsSet" {
+						res.why = append(res.why, "the helper passes the bitmap on to "+calleeName(&x.Call))
+					}
+				default:
+					res.why = append(res.why, "the helper uses the bitmap other than through IsSet at "+P.ipos(x))
+				}
+			}
+			// in fn: the sink only on edges where the verdict is "allowed"
+			cut := map[Edge]bool{}
+			n := 0
+			factEdges(fn, func(e Edge, f Fact) {
+				if f.Kind == "truth" && f.V == ssa.Value(c) {
+					n++
+					if f.Holds != badVal {
+						cut[e] = true
+					}
+				}
+			})
+			if n == 0 {
+				res.why = append(res.why, "the verdict of "+fname(h)+" is not used as a branch condition")
+			}
+			if reachable(fn, cut)[sink] {
+				res.why = append(res.why, "Create is reachable without "+fname(h)+" having returned its 'allowed' verdict")
+			}
+			return res, c, c.Call.Args[j]
+		}
+	}
+	return nil, nil, nil
+}
+
 func checkC06(R *Run) {
 	P := R.P
 	R.rule("subset-loop", "every AccountManager.Create reachable from a handler is preceded by a loop over i = 0..63 (init 0, step 1, bound 8*len(AccessBitmap)) in which an iteration with requested.IsSet(i) true and requester.Authorize(i) false (same i) can neither complete nor reach Create; Create is only reachable through the loop's exit edge")
@@ -192,96 +376,30 @@ func checkC06(R *Run) {
 			construct = fmt.Sprintf("%s: AccountManager.Create #%d", fname(fn), nCreateIn(fn, ci))
 			pos := P.ipos(ci)
 			own := ssa.Value(fn.Params[0])
-			// find Authorize(own, v) with non-constant v whose induction loop's exit edge dominates Create
-			var found *induction
-			var authCall, isSetCall *ssa.Call
-			var problems []string
-			for _, cj := range callsIn(fn) {
-				c, ok := cj.(*ssa.Call)
-				if !ok {
-					continue
-				}
-				recv, p, arg, ok := authorizeCall(c)
-				if !ok || p >= 0 || recv != own {
-					continue
-				}
-				ind, ok := inductionOf(arg)
-				if !ok {
-					problems = append(problems, "Authorize with a non-constant argument that is not a recognised loop counter at "+P.ipos(c))
-					continue
-				}
-				exitCut := map[Edge]bool{}
-				for _, e := range ind.exitEdges {
-					exitCut[e] = true
-				}
-				if reachable(fn, exitCut)[ci.Block()] {
-					continue
-				}
-				// matching IsSet on the same counter
-				for _, ck := range callsIn(fn) {
-					c2, ok := ck.(*ssa.Call)
-					if ok && calleeName(&c2.Call) == "(*hotline.AccessBitmap).IsSet" && len(c2.Call.Args) == 2 && c2.Call.Args[1] == arg {
-						found, authCall, isSetCall = ind, c, c2
-					}
+			res, problems := P.subsetLoopIn(fn, own, []*ssa.BasicBlock{ci.Block()}, bitmapBits)
+			var checkStart ssa.Instruction
+			var bmVal ssa.Value
+			var helperCall *ssa.Call
+			if res != nil {
+				checkStart = res.ind.bodyStart.Instrs[0]
+				bmVal = res.isSet.Call.Args[0]
+			} else {
+				// the loop extracted into a predicate helper: `if exceeds(cc, &bitmap) { refuse }`
+				res, helperCall, bmVal = P.subsetHelperIn(fn, own, ci.Block(), bitmapBits)
+				if res != nil {
+					checkStart = helperCall
 				}
 			}
-			if found == nil {
-				R.und("subset-loop", construct, pos, "no per-bit loop 'requested.IsSet(i) && !requester.Authorize(i) → refuse' whose exit dominates this Create was recognised (accepted idiom: counting loop over the bit index with IsSet and Authorize on the same counter). "+fmt.Sprint(problems))
+			if res == nil {
+				R.und("subset-loop", construct, pos, "no per-bit loop 'requested.IsSet(i) && !requester.Authorize(i) → refuse' whose exit dominates this Create was recognised (accepted idiom: counting loop over the bit index with IsSet and Authorize on the same counter, in the handler or in a bool helper taking the requester and the bitmap). "+fmt.Sprint(problems))
 				continue
 			}
-			ok := true
-			var why []string
-			if found.lo != 0 || found.hi != bitmapBits {
-				ok = false
-				why = append(why, fmt.Sprintf("the loop covers bits %d..%d, not 0..%d", found.lo, found.hi-1, bitmapBits-1))
-			}
-			// an iteration with bit set and not authorised must not complete nor reach Create
-			cut := map[Edge]bool{}
-			factEdges(fn, func(e Edge, f Fact) {
-				if f.Kind != "truth" {
-					return
-				}
-				if f.V == ssa.Value(isSetCall) && !f.Holds {
-					cut[e] = true
-				}
-				if f.V == ssa.Value(authCall) && f.Holds {
-					cut[e] = true
-				}
-			})
-			// both calls must be branch conditions
-			nIs, nAu := 0, 0
-			factEdges(fn, func(e Edge, f Fact) {
-				if f.V == ssa.Value(isSetCall) {
-					nIs++
-				}
-				if f.V == ssa.Value(authCall) {
-					nAu++
-				}
-			})
-			if nIs == 0 || nAu == 0 {
-				ok = false
-				why = append(why, "IsSet/Authorize results are not used as branch conditions")
-			}
-			body := found.bodyStart
-			reach := reachableFrom(body, cut)
-			if reach[found.testBlock] {
-				ok = false
-				why = append(why, "an iteration in which the requested bit is set and the requester lacks it can complete (reaches the loop test again)")
-			}
-			if reach[ci.Block()] {
-				ok = false
-				why = append(why, "Create is reachable from inside such an iteration")
-			}
-			// the IsSet/Authorize tests must be inside the loop body (dominated by the body edge)
-			if !found.bodyStart.Dominates(isSetCall.Block()) || !found.bodyStart.Dominates(authCall.Block()) {
-				ok = false
-				why = append(why, "the IsSet/Authorize tests are not inside the loop body")
-			}
-			R.check(ok, "subset-loop", construct, pos, fmt.Sprintf("loop over bits %d..%d refuses on requested∧¬held; Create only after loop exit", found.lo, found.hi-1),
-				"the per-bit subset check before Create is broken: "+fmt.Sprint(why))
+			found := res.ind
+			R.check(len(res.why) == 0, "subset-loop", construct, pos, fmt.Sprintf("loop over bits %d..%d refuses on requested∧¬held; Create only after loop exit", found.lo, found.hi-1),
+				"the per-bit subset check before Create is broken: "+fmt.Sprint(res.why))
 
 			// subset-bitmap
-			bm, isAlloc := isSetCall.Call.Args[0].(*ssa.Alloc)
+			bm, isAlloc := bmVal.(*ssa.Alloc)
 			if !isAlloc {
 				R.und("subset-bitmap", construct, pos, "the tested bitmap is not a local variable cell")
 				continue
@@ -319,22 +437,22 @@ func checkC06(R *Run) {
 				case *ssa.UnOp:
 				case *ssa.Call:
 					n := calleeName(&x.Call)
-					if n == "(*hotline.AccessBitmap).IsSet" {
+					if n == "(*hotline.AccessBitmap).IsSet" || x == helperCall {
 						continue
 					}
-					if !instrDominates(x, found.bodyStart.Instrs[0]) {
+					if !instrDominates(x, checkStart) {
 						okB = false
 						whyB = append(whyB, "the bitmap is passed to "+n+" after the check started at "+P.ipos(x))
 					}
 				case *ssa.Slice:
 					for _, rr := range *x.Referrers() {
-						if ins, ok := rr.(ssa.Instruction); ok && !instrDominates(ins, found.bodyStart.Instrs[0]) {
+						if ins, ok := rr.(ssa.Instruction); ok && !instrDominates(ins, checkStart) {
 							okB = false
 							whyB = append(whyB, "the bitmap's bytes are accessible for writing after the check started at "+P.ipos(ins))
 						}
 					}
 				case *ssa.IndexAddr, *ssa.Store:
-					if !instrDominates(x.(ssa.Instruction), found.bodyStart.Instrs[0]) {
+					if !instrDominates(x.(ssa.Instruction), checkStart) {
 						okB = false
 						whyB = append(whyB, "the bitmap is written after the check started at "+P.ipos(x.(ssa.Instruction)))
 					}
